@@ -56,7 +56,7 @@ def closed_models(run):
             rejected.append("mem:" + os.path.basename(cfg)[len("DisruptionMem_Weak_"):-4])
         for cfg in sorted(glob.glob(os.path.join(run.specdir, "DisruptionCond_Weak_*.cfg"))):
             w = run.tlc("DisruptionCond", os.path.basename(cfg), workers=2, heap="2g", expect_violation=True)
-            if w.violated != "Inv_C07_ConsolidatableJustified":
+            if w.violated not in ("Inv_C07_ConsolidatableJustified", "Inv_C07_DecisionJustified"):
                 raise vlib.InfraError("spec mutation %s not rejected by TLC" % os.path.basename(cfg))
             rejected.append("cond:" + os.path.basename(cfg)[len("DisruptionCond_Weak_"):-4])
     run.notes.append("spec mutations rejected by TLC: " + ", ".join(rejected))
@@ -81,28 +81,15 @@ def gen_cells(run):
 
 
 def gen_cond(run):
-    cfg = open(os.path.join(run.specdir, "DisruptionCond_Gen.cfg")).read().replace("MaxLen = 6", "MaxLen = 10")
+    """Behaviours of DisruptionCond.tla: TLC simulation + the systematic tours (checks/disrupt_common.cond_tours)."""
+    cfg = open(os.path.join(run.specdir, "DisruptionCond_Gen.cfg")).read().replace("MaxLen = 6", "MaxLen = 11")
     open(os.path.join(run.specdir, "DisruptionCond_Gen_run.cfg"), "w").write(cfg)
     behs = run.generate("DisruptionCond", "DisruptionCond_Gen_run.cfg", workers=1, simulate="num=%d" % NCOND[run.tier],
-                        depth=12, heap="2g", timeout=600)
-    # systematic threshold tours: reconcile at T-1 / T / T+1 around lastPodEvent + consolidateAfter, with and
-    # without a pod event, a second pod event inside and after the de-duplication window
-    R, P = {"a": "Reconcile", "d": 0}, {"a": "PodEvent", "d": 0}
-
-    def tick(d):
-        return {"a": "Tick", "d": d}
-    tours = []
-    for ca in (-1, 0, 2):
-        for static in (False, True):
-            for inited in (True, False):
-                tours.append([R, tick(1), R, tick(1), R, tick(1), R])
-                if inited:
-                    tours.append([tick(1), P, R, tick(1), R, tick(1), R, tick(1), R])
-                    tours.append([P, tick(1), tick(1), R, tick(1), P, R, tick(9), P, R, tick(1), R, tick(1), R, tick(1), R])
-                    tours.append([tick(9), P, tick(1), R, tick(1), R, P, R, tick(9), P, R, tick(1), R, tick(1), R])
-                behs += [{"ca": ca, "static": static, "inited": inited, "steps": t} for t in tours]
-                tours = []
-    return behs
+                        depth=13, heap="2g", timeout=600)
+    for b in behs:
+        if not isinstance(b["steps"], list):
+            b["steps"] = []
+    return behs + dc.cond_tours()
 
 
 # controls that must NOT block (timing just expired, malformed annotation, terminal pod, PDB that does not apply...): if the
@@ -114,7 +101,7 @@ EXPLORE_BLOCKERS = ["unmanaged", "uninitialized", "nodeGone", "marked", "claimDe
                     "podDndNoStart", "podDndInvalid", "podDndTerminal", "podDndTerminating", "dsPodDnd", "pdbZero", "pdbOk", "pdbMulti",
                     "pdbZeroAll", "pdbZeroNilSel",
                     "pdbZeroTolerating", "notConsolidatable", "consolidatableEdge", "consolidatableFalse", "buffer", "notDrifted",
-                    "tgp"]
+                    "tgp", "costMixedNeg", "costMixedPrio", "costAllNonPos"]
 
 
 def gen_mem(run):
@@ -163,7 +150,10 @@ def explorer(run, n):
             else:
                 for q in range(rng.randint(1, 2)):
                     pods.append(dc.pod("p%d-%d" % (j, q), nm, cpu=rng.choice([200, 500, 900]),
-                                       owner=rng.choice(["replicaset", "replicaset", "statefulset", "daemonset"])))
+                                       owner=rng.choice(["replicaset", "replicaset", "statefulset", "daemonset"]),
+                                       deletionCost=rng.choice(["", "", "", dc.ZERO_COST, dc.COST_ZERO_EDGE, dc.COST_TINY_POS, "100", dc.COST_LARGE]),
+                                       **rng.choice([{}, {}, {}, dict(priority=dc.PRIO_MIN, hasPriority=True),
+                                                     dict(priority=1000000, hasPriority=True), dict(priority=-40000000, hasPriority=True)])))
             groups = set()
             for b in rng.sample(EXPLORE_BLOCKERS, rng.choice([0, 0, 1, 1, 2])):
                 if dc.GROUPS[b] in groups:
@@ -215,7 +205,13 @@ def check(run):
     if run.tier == "thorough":   # the same table with a DaemonSet / StatefulSet pod carrying the pod-level blockers
         scen += [dc.cell_scenario(c, rng, again=True, variant=1) for c in cells]
     conds = gen_cond(run)
-    scen += [dc.cond_scenario(b, i) for i, b in enumerate(conds)]
+    # every behaviour ends in a decision of Emptiness (variant A) or single-node consolidation (variant B): the simulated
+    # ones alternate in quick, the tours (and everything in thorough) run in both variants
+    nsim = len(conds) - len(dc.cond_tours())
+    for i, b in enumerate(conds):
+        both = run.tier == "thorough" or i >= nsim
+        for v in (("A", "B") if both else ("AB"[i % 2],)):
+            scen.append(dc.cond_scenario(b, i, v))
     mems = gen_mem(run)
     scen += [dc.mem_scenario(b, i) for i, b in enumerate(mems)]
     faults = fault_scenarios(run, rng)
